@@ -211,10 +211,6 @@ DOCUMENTED_MISSES = {
     "seed-C10-2": "integer-suffix ladder of the expression tokenizer: which literal spellings are accepted is value-level, not decided statically",
     "seed-C05-r4-3": "'unsigned char' re-aliased from char to uint8: the property speaks of the type char; the built-in table oracle deliberately accepts both "
                      "readings of 'unsigned char' (raw byte as the library has it, 8-bit unsigned as C has it), so no rule claims the spelling",
-    "seed-C11-r5-2": "UnionProxy.__setattr__ stores the proxy's own target as the union member before rebuilding: wrong only for structures nested two levels "
-                     "inside a member - the proxy rules look at liveness and at who triggers the rebuild, not at which object is written back",
-    "seed-C11-r5-3": "Union._proxify walks the name-keyed field view instead of the ordered list: anonymous members are no longer wrapped - no rule claims which "
-                     "of the two views the proxy walk uses",
     "seed-C13-r5-1": "sizeof() errors re-raised as ExpressionParserError, which TokenParser._constant swallows: two cooperating sites in expression.py / parser.py, "
                      "neither wrong alone; the parsers are not folded",
     "seed-C13-r5-2": "typedef struct parsed with register=True: the declarators are then consumed by _struct - a one-word change in the token parser, which is "
